@@ -103,8 +103,6 @@ pub proof fn lemma_accumulated_is_plain_sum(s: Seq<Signature>, n: int)
         let a = tail_sum(s, n - 1);
         let b = sig_point(s[n - 1]).dl();
         let c = sig_point(s[0]).dl();
-        assert(fadd(fadd(a, b), c) == fadd(a, fadd(b, c)));
-        assert(fadd(b, c) == fadd(c, b));
-        assert(fadd(a, fadd(c, b)) == fadd(fadd(a, c), b));
+        lemma_add_assoc(a, b, c); lemma_add_comm(b, c); lemma_add_assoc(a, c, b);
     }
 }
